@@ -1641,7 +1641,7 @@ def run(ck: Ck) -> None:
         built = core and ck.build(['Props/C04.vo'])
         if built:
             theorems_with_axioms(ck)
-            if ok_i and ok_ip:
+            if ok_i and ok_ip and ok_im:
                 # today's generated table / program / census meet the hypotheses of c04_property (one Example, kernel-checked)
                 ck.build(['Props/C04Today.vo'])
     # 4. correspondences and 5. searches, each under `guarded` (exception / hang -> violation with the input in flight)
@@ -1698,9 +1698,9 @@ def run(ck: Ck) -> None:
     if any(k.startswith('hang:') for k in keys):
         # a loop the translators refuse to read (fail closed) and a concrete input on which the implementation does not return
         ck.explain('translate:Rot')
-    # Props/C04Today.v is the conjunction of four instance obligations: it fails with them and is explained with them
+    # Props/C04Today.v is the conjunction of five instance obligations: it fails with them and is explained with them
     if any(o['name'] in ('instance:dispatch_table_ok', 'instance:inverse_prog_ok', 'instance:inverse_total_on_rotations',
-                         'instance:inplace_census_ok') and not o['ok'] and o.get('explained') for o in ck.obligations):
+                         'instance:inplace_census_ok', 'instance:inplace_methods_ok') and not o['ok'] and o.get('explained') for o in ck.obligations):
         ck.explain('build:Props/C04Today.vo')
     explain_build(ck, keys)
 
